@@ -50,10 +50,18 @@ def run(ctx):
             Has("call:*NamespaceProof*::verify_range", "a1.proof", "a1.share", ["call:*DataAvailabilityHeader::row_root", "call:*DataAvailabilityHeader::column_root"],
                 name="result of proof.verify_range(root, [share], share.namespace()) honoured"),
             "C04.verify.range-proof")
-        require_guard(
-            ctx, f,
-            Cmp(["a1.proof"], ["a2"], name="proof position (start/end index) bound to the requested coordinate"),
-            "C04.verify.position")
+        pos = Cmp(["a1.proof"], ["a2"], name="proof position (start/end index) bound to the requested coordinate")
+        require_guard(ctx, f, pos, "C04.verify.position")
+        # the comparison must be made on the full-width proof index: a narrowing conversion of
+        # start_idx()/end_idx() (u32) before the comparison lets `65536 + x` pass for coordinate `x`
+        from engine.rules import Guards, narrowing_casts
+        g = Guards(ctx, f)
+        bad = []
+        for b, _p, _i in g.guard_blocks(pos):
+            bad += [(b, n) for n in narrowing_casts(ctx, f.switch_discr_expr(b), ["call:*::start_idx", "call:*::end_idx"], 32)]
+        ctx.check(not bad, "C04.verify.position-width", f.path,
+                  "the proof's u32 start/end index is compared at full width (no narrowing cast before the comparison)" + (": cast to %s" % bad[0][1][2] if bad else ""),
+                  site=f.loc(bad[0][0]) if bad else None, key="C04.verify.position-width")
     f = ctx.anchor(T + "sample::Sample::from_raw")
     if f:
         require_guard(ctx, f, Has("call:*NamespaceProof*::is_of_absence", name="absence proofs rejected"), "C04.from_raw.presence")
